@@ -600,6 +600,23 @@ func (e *specEnv) callSpec(n *ECall) Val {
 			cs = append(cs, tEq(ma[i], mb[i]))
 		}
 		return VBool{tAnd(cs...)}
+	case "at":
+		// at(k, e): value of e at the head of loop k in the current iteration
+		k, ok := n.Args[0].(*EInt)
+		if !ok {
+			e.fail("at(k, e): k must be a literal loop ordinal")
+		}
+		var ki int
+		fmt.Sscan(k.V, &ki)
+		hs := e.st.heads[ki]
+		if hs == nil {
+			e.fail("at(%d, ...): loop %d is not open here", ki, ki)
+		}
+		saved := e.st
+		e.st = hs
+		v := e.eval(n.Args[1])
+		e.st = saved
+		return v
 	case "u32":
 		return VInt{tModC(e.evalInt(n.Args[0]), pow2(32))}
 	case "int":
